@@ -161,6 +161,10 @@ class RefsEngine(Engine):
         name = RS.AST_BINOP.get(type(op).__name__)
         if name is None:
             raise Unsupported(f"operator {type(op).__name__}")
+        if inplace:
+            # `x op= y` on an opaque value calls x.__iop__(y): it may mutate the object x denotes (a stored array, a list shared with
+            # another location) and need not return what `x op y` returns -- not the binary operator, and outside the subset
+            raise Unsupported(f"in-place operator {type(op).__name__} on an opaque value")
         at, bt = self.as_v(a), self.as_v(b)
         self.dispatch_fact(cx, name, at, bt)
         xt = RS.opx[name](at, bt)
